@@ -171,6 +171,18 @@ def one(ctx: Ctx, workload: str, idx: int, ye: float, yg: float, ego_yaws, roll:
         ctx.check(close(wm, base, tol, 0), "C09/aph_weight_depends_on_frame", dict(est_yaw=ye, gt_yaw=yg, ego_yaw=ey, ego=base, map=wm), "TPMetricsAph.get_value")
         he = e.get_heading_error(g)
         ctx.check(close(abs(he[2]), d, tol, 0), "C09/yaw_error_depends_on_frame", dict(est_yaw=ye, gt_yaw=yg, ego_yaw=ey, err=he[2], d=d), "get_heading_error")
+    # orientations given as the literal half-turn quaternions (0, 0, 0, +-1) (w exactly 0, not cos(pi/2) ~ 6e-17), in both
+    # frames and against a few partners
+    from pyquaternion import Quaternion as _Q
+
+    for frame_ in (("base_link", "map") if idx % 4 == 0 else ()):
+        for sign in (1.0, -1.0):
+            for partner in (ye, yg, 0.0, math.pi - 0.2):
+                e_h, g_h = pair(0.0, partner, False, False, frame_, ego_yaw=0.0)
+                e_h.state.orientation = _Q(0.0, 0.0, 0.0, sign)
+                ctx.count("C09.literal_half_turn_checked")
+                weight(e_h, g_h, 0.0)  # judged by the tap against the oracle's own yaw algebra
+                weight(g_h, e_h, 0.0)
     if abs(d) < 1e-12 and not tilted:
         ctx.check(close(base, 1.0, 1e-9, 0), "C09/equal_headings_weight_not_one", dict(est_yaw=ye, gt_yaw=yg, w=base), "TPMetricsAph.get_value")
     if abs(d - math.pi) < 1e-12 and not tilted:
